@@ -1202,6 +1202,14 @@ func (h *hist) racePhase() {
 	if h.abandoned.Load() {
 		return
 	}
+	// restart after the forced schedules: what they truncated must stay as audited
+	if err := h.st.Close(); err != nil {
+		h.c.Note(fmt.Sprintf("[%s] close: %v", h.sp.Name, err))
+	}
+	if err := h.open(); err != nil {
+		h.viol("reopen/failed", fmt.Sprintf("store does not reopen after the gate phase: %v", err), nil)
+		return
+	}
 	// the store keeps accepting writes after truncation + restart
 	r := fw.NewRand(h.c.Seed, "c14/"+h.sp.Name+"/after")
 	for i := 0; i < 3; i++ {
